@@ -158,7 +158,7 @@ class MultiMatcher(mcore.Matcher):
 
     def copy(self):
         return self.__class__([mr.copy() for mr in self.matchers],
-                              self.offsets, current=self.current)
+                              self.offsets, self.scorer, current=self.current)
 
     def depth(self):
         if self.is_active():
